@@ -214,6 +214,14 @@ def run_suite(ctx, only_best=False):
                 C.add({"op": "sel.greedy1", "pop": pop_json([co, cn])}, tags([r])[0] if ok else rerr(r), {"old": co, "new": cn, "op": "_greedy_select_agent", "nt": True})
                 if ok and ((r.cost, r.position) != ((b.cost, b.position) if cn < co else (a.cost, a.position))):
                     ctx.fail("C16/_greedy_select_agent/incumbent-not-kept-unless-strictly-cheaper", f"{co} vs {cn} -> {r.cost}", SUITE, {"old": co, "new": cn})
+    # … and on costs that are not numbers: a NaN challenger is not strictly cheaper (the incumbent stays), a NaN incumbent is never beaten
+    for co, cn in itertools.product([math.nan, -math.inf, -1.0, 0.0, 1e-17, math.inf], repeat=2):
+        opt = Scripted(BaseOptimizationConfig(population_size=1, max_cycles=1))
+        a, b = make_agent(0, co), make_agent(1, cn)
+        ok, r = call(opt._greedy_select_agent, a, b)
+        C.add({"op": "sel.greedy1", "pop": pop_json([co, cn])}, tags([r])[0] if ok else rerr(r), {"old": repr(co), "new": repr(cn), "op": "_greedy_select_agent", "nt": True})
+        if ok and r.position != (b.position if cn < co else a.position):
+            ctx.fail("C16/_greedy_select_agent/incumbent-not-kept-unless-strictly-cheaper", f"{co} vs {cn} -> agent {r.position}", SUITE, {"old": repr(co), "new": repr(cn)})
     flush(ctx, C)
 
 
